@@ -371,7 +371,7 @@ theorem char_eq_of_toNat {c : Char} {n : Nat} (h : c.toNat = n) (hn : n < 0xD800
 theorem text_utf16le_aux (us : List Nat) (hlt : ∀ u ∈ us, u < 65536)
     (hlen : 2 + (le16 us).length < 2147483648) :
     text ([0xFF, 0xFE] ++ le16 us) = wideToString (foldU us) := by
-  unfold text
+  unfold text textN
   have hl : ([0xFF, 0xFE] ++ le16 us : Bytes).length < 2147483648 := by simp only [List.length_append, List.length_cons, List.length_nil]; omega
   simp only [size_mask _ hl]
   have h2 : 2 ≤ ([0xFF, 0xFE] ++ le16 us : Bytes).length := by simp only [List.length_append, List.length_cons, List.length_nil]; omega
@@ -383,7 +383,7 @@ theorem text_utf16le_aux (us : List Nat) (hlt : ∀ u ∈ us, u < 65536)
 theorem text_utf16be_aux (us : List Nat) (hlt : ∀ u ∈ us, u < 65536)
     (hlen : 2 + (be16 us).length < 2147483648) :
     text ([0xFE, 0xFF] ++ be16 us) = wideToString (foldU us) := by
-  unfold text
+  unfold text textN
   have hl : ([0xFE, 0xFF] ++ be16 us : Bytes).length < 2147483648 := by simp only [List.length_append, List.length_cons, List.length_nil]; omega
   simp only [size_mask _ hl]
   have h2 : 2 ≤ ([0xFE, 0xFF] ++ be16 us : Bytes).length := by simp only [List.length_append, List.length_cons, List.length_nil]; omega
